@@ -120,6 +120,22 @@ func TestVerifC17SM4(t *testing.T) {
 							}
 							var out []byte
 							var err error
+							if it%11 == 3 {
+								// construct a cipher for another key while everybody else is working
+								k2 := lr.Bytes(16)
+								if it%22 == 3 {
+									k2 = append([]byte{}, key...)
+								}
+								b2, e2 := NewCipher(k2)
+								probe := make([]byte, 16)
+								o2 := make([]byte, 16)
+								if e2 == nil {
+									b2.Encrypt(o2, probe)
+								}
+								if e2 != nil || !bytes.Equal(o2, ref.SM4Encrypt(k2, probe)) {
+									r.Violation(fmt.Sprintf("concurrent-NewCipher-wrong:%s", pn), hk.D{"key": hk.Hex(k2)})
+								}
+							}
 							p, msg, isFault, _ := hk.Try(func() {
 								switch op.kind {
 								case "enc":
